@@ -61,7 +61,11 @@ impl Spawner for PoolSpawner {
             match self.config.addr.lookup_host().await {
                 Ok(addresses) => {
                     // add the addresses looked up to our list of known ips
-                    self.known_ips.append(&mut addresses.collect());
+                    for addr in addresses {
+                        if !self.known_ips.contains(&addr) {
+                            self.known_ips.push(addr);
+                        }
+                    }
                     // remove known ips that we are already connected to or that we want to ignore
                     self.known_ips.retain(|ip| {
                         !self.current_sources.iter().any(|p| p.addr == *ip)
